@@ -280,24 +280,21 @@ def reset_state():
 # normalisation; everything else must round trip octet for octet.
 
 
-def _labels_canonical(consumed, start, mask_at, rd_bits):
-    """RFC 8277 2.2/2.3: the 3 bits after the 20-bit label are reserved (SHOULD be zero, MUST be ignored) and the last
-    bit is bottom-of-stack: ExaBGP's Label rebuilds the stack from the 20-bit values (Labels.make_labels), so reserved
-    bits are cleared and the one terminating label gets S=1 even when the peer used the pre-RFC 0x000000 / 0x800000
-    conventions.  Canonical = every label octet triple has a zero low nibble, except the last which has 0x1."""
-    return None
-
-
 CANON_NOTES = {
-    'label': 'ipv4/ipv6 nlri-mpls: reserved (TC) bits of each label cleared, bottom-of-stack set on the last label: RFC 8277 2.2 (Rsrv SHOULD be zero, MUST be ignored); '
-             'the compatibility values 0x000000 / 0x800000 (RFC 3107 withdraw) come back with S=1',
-    'rtc': 'ipv4 rtc: the two high bits of the route-target type octet (IANA-authority / transitive, RFC 4360 2) are cleared (RTC.resetFlags): RFC 4684 4 compares route targets as NLRI prefix bits, ExaBGP stores them flag-less',
-    'flow': 'flow / flow-vpn: the rule is rebuilt from its components (ordering, operator length bits, end-of-list bit): octet-exactness is C16, here only idempotence',
+    'label': 'ipv4/ipv6 nlri-mpls: the stack is rebuilt from the 20-bit label values (Labels.make_labels): the 3 reserved bits of every label '
+             'are cleared and the bottom-of-stack bit is set on the last label only.  RFC 8277 2.2/2.3: Rsrv "SHOULD be set to zero on transmission '
+             'and MUST be ignored on reception", S set on the last label; RFC 8277 2.4: the withdraw compatibility field (0x800000, or the older '
+             '0x000000) "MUST be ignored on reception": both come back as a label with S=1',
+    'rtc': 'ipv4 rtc: the two high bits of the route-target type octet are cleared (RTC.resetFlags): RFC 4684 4 compares route targets as NLRI '
+           'prefix bits and RFC 4360 2 makes those bits the IANA-authority / transitive flags of an attribute, which an NLRI does not have',
+    'vpls': 'l2vpn vpls: a declared length above 17 is accepted and only the 17 octets RFC 4761 3.2.2 defines are kept: the length comes back as 17',
+    'flow': 'flow / flow-vpn: the rule is rebuilt from its components (ordering, operator length bits, end-of-list bit): octet-exactness against '
+            'RFC 8955 is C16; here the normal form only (what is packed decodes to an equal rule and packs to itself)',
 }
 
 
-def nlri_canonical(ctx, afi, safi, consumed, addpath, nlri):
-    """-> (cond, tag): cond is bool|SBool 'these octets are canonical'; None = no octet-exact claim (idempotence only)"""
+def nlri_canonical(ctx, afi, safi, consumed, addpath, nlri, action=None):
+    """-> (cond, tag): cond is bool|SBool 'these octets are canonical'; None = no octet-exact claim (normal form only)"""
     safi_i = int(safi)
     if safi_i == 4:  # nlri-mpls
         off = 4 if addpath else 0
@@ -311,21 +308,48 @@ def nlri_canonical(ctx, afi, safi, consumed, addpath, nlri):
         if len(consumed) < 13:
             return True, 'rtc'
         return consumed[5] < 64, 'rtc'
+    if safi_i == 65:   # vpls
+        return s_and(consumed[0] == 0, consumed[1] == 17), 'vpls'
     if safi_i in (133, 134):
         return None, 'flow'
     return True, ''
 
 
+def input_class(ctx, afi, safi, consumed, addpath, nlri, action):
+    """A name for the class of input a known defect is tied to (part of the obligation signatures, never of the verdict):
+    forks on the class so that one signature is one class."""
+    if int(safi) == 4:
+        off = 4 if addpath else 0
+        size = getattr(nlri, '_label_size', 0)
+        if size >= 6:
+            # the 20-bit value of the first label is one of the two values the decoder also reads as "this IS the whole stack"
+            if bool(s_and(consumed[off + 1] == 0, consumed[off + 2] == 0, consumed[off + 3] < 16)):
+                return ':label-0-above-another-label'
+            if action == Action.WITHDRAW and bool(s_and(consumed[off + 1] == 0x80, consumed[off + 2] == 0, consumed[off + 3] < 16)):
+                return ':withdraw-label-524288-above-another-label'
+    return ''
+
+
 # ----------------------------------------------------------------------------- NLRI: decode -> encode
 
 
+def eq_by_class(a, b):
+    """the class's own == (forks on a symbolic answer: the two sides are then two paths)"""
+    r = a == b
+    return bool(r)
+
+
 def dec_nlri(ctx, afi, safi, data, addpath=False, action=Action.ANNOUNCE, kind=None):
-    """The generic decode->encode obligation for one NLRI buffer."""
+    """The generic decode->encode obligation for one NLRI buffer.
+
+      in --decode--> x --pack--> out            canonical(in)  =>  out == in                         (clause b)
+      out --decode--> y                         always: y exists, consumes out, pack(y) == out,      (clause a on x, which
+                                                y == x by the class's own ==, index(y) == index(x),   is reachable from decoding)
+                                                hash(y) == hash(x) (witness)
+    """
     afi, safi = AFI.from_int(afi), SAFI.from_int(safi)
     kind = kind or fam_name(afi, safi)
     neg = session(addpath)
-    if addpath and not neg.addpath.send(afi, safi):
-        ctx.assume(False, 'ADD-PATH units only for families the session negotiates it for')
     try:
         nlri, left = NLRI.unpack_nlri(afi, safi, data, action, addpath, neg)
     except Notify as exc:
@@ -333,10 +357,9 @@ def dec_nlri(ctx, afi, safi, data, addpath=False, action=Action.ANNOUNCE, kind=N
         ctx.note('class', 'refused')
         return ('refused', int(exc.code), int(exc.subcode))
     except Exception as exc:
-        # C03's claim, recorded here under its own signature
+        # which exceptions may escape a decoder is property C03, not C15: here it is a refusal, kept in the census
         ctx.cover('refused')
-        ctx.note('class', 'raises-%s' % type(exc).__name__)
-        ctx.check('only-notify-escapes', False, sig='C15:dec:nlri:%s:raises-%s' % (kind, type(exc).__name__), info={'data': data, 'raised': str(exc)[:200]})
+        ctx.note('class', 'refused-by-%s' % type(exc).__name__)
         return ('raises', type(exc).__name__)
     if nlri is NLRI.INVALID:
         ctx.cover('refused')
@@ -347,6 +370,7 @@ def dec_nlri(ctx, afi, safi, data, addpath=False, action=Action.ANNOUNCE, kind=N
     consumed = data[:n_used]
     klass = type(nlri).__name__
     ctx.note('class', 'decoded:%s' % klass)
+    kind = kind + input_class(ctx, afi, safi, consumed, addpath, nlri, action)
     # the left-over is the tail of the input
     chk(ctx, 'left-over-is-tail', sx_eq(B(ctx, left), data[n_used:]), 'C15:dec:nlri:%s:left-over-not-tail' % kind)
     # family survives
@@ -357,23 +381,19 @@ def dec_nlri(ctx, afi, safi, data, addpath=False, action=Action.ANNOUNCE, kind=N
     except Exception as exc:
         ctx.check('packs', False, sig='C15:dec:nlri:%s:pack-raises-%s' % (kind, type(exc).__name__), info={'data': data, 'raised': str(exc)[:200]})
         return ('decoded', klass, n_used, 'pack-raises')
-    canon, why = nlri_canonical(ctx, afi, safi, consumed, addpath, nlri)
-    same = sx_eq(out, consumed)
+    canon, why = nlri_canonical(ctx, afi, safi, consumed, addpath, nlri, action)
     if canon is None:
-        verdict = 'idempotence-only'
+        verdict = 'normal-form-only'
         ctx.cover('non-canonical')
     else:
-        chk(ctx, 'reencode', s_implies(canon, same), 'C15:dec:nlri:%s:reencode-differs' % kind, lambda: {'in': consumed, 'out': out})
-        if len(out) != len(consumed):
-            # not even the size survives: reported above; decoding the wrong octets again adds nothing
-            return ('decoded', klass, n_used, 'reencoded-size-differs')
+        chk(ctx, 'reencode', s_implies(canon, sx_eq(out, consumed)), 'C15:dec:nlri:%s:reencode-differs' % kind, lambda: {'in': consumed, 'out': out})
         if bool(canon):
             verdict = 'canonical'
             ctx.cover('canonical')
         else:
             verdict = 'non-canonical:' + why
             ctx.cover('non-canonical')
-    # idempotence: what was packed decodes to the same object and packs to itself
+    # what ExaBGP packed is its own encoding: it decodes, whole, to an equal route which packs to the same octets
     try:
         again, left2 = NLRI.unpack_nlri(afi, safi, out, action, addpath, neg)
     except Exception as exc:
@@ -383,11 +403,13 @@ def dec_nlri(ctx, afi, safi, data, addpath=False, action=Action.ANNOUNCE, kind=N
     chk(ctx, 'reencoded-decodes', ok, 'C15:dec:nlri:%s:reencoded-refused' % kind, lambda: {'in': consumed, 'out': out})
     if ok:
         chk(ctx, 'reencoded-whole', len(left2) == 0, 'C15:dec:nlri:%s:reencoded-left-over' % kind, lambda: {'out': out})
-        chk(ctx, 'same-object', s_and(type(again) is type(nlri), sx_eq(state(again), state(nlri))), 'C15:dec:nlri:%s:redecoded-object-differs' % kind,
-            lambda: {'in': consumed, 'out': out, 'first': str(state(nlri))[:300], 'second': str(state(again))[:300]})
         chk(ctx, 'same-octets', sx_eq(B(ctx, again.pack_nlri(neg)), out), 'C15:dec:nlri:%s:repack-differs' % kind, lambda: {'in': consumed, 'out': out})
-        # equal routes: equal index
+        chk(ctx, 'equal-route', type(again) is type(nlri) and eq_by_class(again, nlri), 'C15:dec:nlri:%s:redecoded-route-not-equal' % kind,
+            lambda: {'in': consumed, 'out': out, 'first': str(state(nlri))[:300], 'second': str(state(again))[:300]})
+        # equal routes: equal index (and equal hash, on the replayed model: hash() is C code)
         chk(ctx, 'equal-index', sx_eq(B(ctx, again.index()), B(ctx, nlri.index())), 'C15:dec:nlri:%s:equal-routes-different-index' % kind, lambda: {'in': consumed, 'out': out})
+        if not ctx.sym:
+            ctx.witness_check('equal-hash', lambda: hash(again) == hash(nlri), sig='C15:dec:nlri:%s:equal-routes-different-hash' % kind, info={'in': consumed, 'out': out})
     cdata = data
     render_witness(ctx, 'nlri:' + kind, lambda: NLRI.unpack_nlri(afi, safi, bytes(cdata), action, addpath, neg)[0])
     return ('decoded', klass, n_used, verdict)
@@ -674,10 +696,11 @@ REFUSAL = (Notify, ValueError, IndexError)   # what AttributeCollection.parse ha
 class Shape:
     """octets of one attribute value + the terms under which they are canonical (None: idempotence only)"""
 
-    def __init__(self, items, canon=(), why=''):
+    def __init__(self, items, canon=(), why='', tag=''):
         self.items = list(items)
         self.canon = canon
         self.why = why
+        self.tag = tag      # input class a known defect is tied to: part of the obligation signatures only
 
 
 def split_attributes(out):
@@ -720,27 +743,36 @@ def repack_mp(ctx, obj, neg, code):
 
 
 def dec_attr(ctx, code, flag, shape, asn4=True, kind=None, deep=None):
-    """The generic decode->encode obligation for one attribute value."""
-    kind = kind or 'attr-%d' % code
+    """The generic decode->encode obligation for one attribute value (same scheme as dec_nlri)."""
+    kind = (kind or 'attr-%d' % code) + shape.tag
     neg = session(False, asn4)
     data = mk(ctx, shape.items)
     try:
         obj = Attribute.unpack(code, flag, data, neg)
+        if code in (14, 15) and not isinstance(obj, (TreatAsWithdraw, Discard)):
+            # MP_REACH / MP_UNREACH keep the wire octets and decode their routes when iterated: decoding IS iterating
+            n_routes = len(list(obj))
     except REFUSAL as exc:
         ctx.cover('refused')
         ctx.note('class', 'refused')
         return ('refused', type(exc).__name__)
     except Exception as exc:
+        # which exceptions may escape a decoder is property C03, not C15: here it is a refusal, kept in the census
         ctx.cover('refused')
-        ctx.note('class', 'raises-%s' % type(exc).__name__)
-        ctx.check('only-refusals-escape', False, sig='C15:dec:%s:raises-%s' % (kind, type(exc).__name__), info={'data': data, 'raised': str(exc)[:200]})
+        ctx.note('class', 'refused-by-%s' % type(exc).__name__)
         return ('raises', type(exc).__name__)
     if isinstance(obj, (TreatAsWithdraw, Discard)):
         ctx.cover('refused')
         ctx.note('class', 'refused:%s' % type(obj).__name__)
         return ('refused', type(obj).__name__)
-    ctx.cover('decoded')
     klass = type(obj).__name__
+    if code in (14, 15) and n_routes == 0:
+        # no route inside: for MP_UNREACH this is the End-of-RIB marker of the family (RFC 4724 2), which Update.parse
+        # turns into an EOR message; there is nothing for pack to give back
+        ctx.cover('refused')
+        ctx.note('class', 'no-route-inside')
+        return ('no-route-inside', klass)
+    ctx.cover('decoded')
     ctx.note('class', 'decoded:%s' % klass)
     try:
         out = repack_mp(ctx, obj, neg, code) if code in (14, 15) else B(ctx, obj.pack_attribute(neg))
@@ -750,11 +782,10 @@ def dec_attr(ctx, code, flag, shape, asn4=True, kind=None, deep=None):
         return ('decoded', klass, 'pack-raises')
     if len(out) == 0:
         # an OPTIONAL attribute with an empty value is not sent at all (Attribute._attribute): the empty value round trips to absence
-        chk(ctx, 'empty-only-when-empty', len(data) == 0 or (code in (14, 15)), 'C15:dec:%s:reencoded-to-nothing' % kind, lambda: {'in': data})
-        if code not in (14, 15):
-            ctx.cover('canonical')
-            render_witness(ctx, kind, lambda: Attribute.unpack(code, flag, bytes(data), neg))
-            return ('decoded', klass, 'omitted-when-empty')
+        chk(ctx, 'empty-only-when-empty', len(data) == 0, 'C15:dec:%s:reencoded-to-nothing' % kind, lambda: {'in': data})
+        ctx.cover('canonical')
+        render_witness(ctx, kind, lambda: Attribute.unpack(code, flag, bytes(data), neg))
+        return ('decoded', klass, 'omitted-when-empty')
     parts = split_attributes(out)
     ok = chk(ctx, 'well-formed-tlv', parts is not None and len(parts) >= 1, 'C15:dec:%s:reencoded-not-a-tlv' % kind, lambda: {'in': data, 'out': out})
     if not ok:
@@ -764,12 +795,11 @@ def dec_attr(ctx, code, flag, shape, asn4=True, kind=None, deep=None):
     chk(ctx, 'header', ocode == code and oflag == want_flag and len(parts) == 1, 'C15:dec:%s:reencoded-header' % kind,
         lambda: {'flag': oflag, 'code': ocode, 'attributes': len(parts), 'want-flag': want_flag})
     if shape.canon is None:
-        verdict = 'idempotence-only'
+        verdict = 'normal-form-only'
         ctx.cover('non-canonical')
     else:
         canon = s_and(*shape.canon)
-        same = sx_eq(value, data)
-        chk(ctx, 'reencode', s_implies(canon, same), 'C15:dec:%s:reencode-differs' % kind, lambda: {'in': data, 'out': value})
+        chk(ctx, 'reencode', s_implies(canon, sx_eq(value, data)), 'C15:dec:%s:reencode-differs' % kind, lambda: {'in': data, 'out': value})
         if bool(canon):
             verdict = 'canonical'
             ctx.cover('canonical')
@@ -778,14 +808,21 @@ def dec_attr(ctx, code, flag, shape, asn4=True, kind=None, deep=None):
             ctx.cover('non-canonical')
     if deep is not None:
         deep(ctx, obj, data, kind, neg)
-    # idempotence
+    # what ExaBGP packed is its own encoding: it decodes to an equal attribute which packs to the same octets
     try:
         again = Attribute.unpack(code, flag, value, neg)
+        if code in (14, 15):
+            list(again)
     except Exception as exc:
         ctx.check('reencoded-decodes', False, sig='C15:dec:%s:reencoded-refused' % kind, info={'in': data, 'out': value, 'raised': '%s %s' % (type(exc).__name__, str(exc)[:160])})
         return ('decoded', klass, verdict, 'reencoded-refused')
-    chk(ctx, 'same-object', s_and(type(again) is type(obj), sx_eq(state(again), state(obj))), 'C15:dec:%s:redecoded-object-differs' % kind,
-        lambda: {'in': data, 'out': value, 'first': str(state(obj))[:300], 'second': str(state(again))[:300]})
+    if code in (14, 15):
+        # the object IS its wire octets (next hop included); what must be equal is the routes it yields
+        same = [eq_by_class(x, y) for x, y in zip(list(obj), list(again))]
+        chk(ctx, 'equal-attribute', len(list(obj)) == len(list(again)) and all(same), 'C15:dec:%s:redecoded-routes-not-equal' % kind, lambda: {'in': data, 'out': value})
+    else:
+        chk(ctx, 'equal-attribute', type(again) is type(obj) and eq_by_class(again, obj), 'C15:dec:%s:redecoded-attribute-not-equal' % kind,
+            lambda: {'in': data, 'out': value, 'first': str(state(obj))[:300], 'second': str(state(again))[:300]})
     try:
         out2 = repack_mp(ctx, again, neg, code) if code in (14, 15) else B(ctx, again.pack_attribute(neg))
         chk(ctx, 'same-octets', sx_eq(out2, out), 'C15:dec:%s:repack-differs' % kind, lambda: {'in': data, 'out': out, 'again': out2})
@@ -841,9 +878,15 @@ def sh_aspath(asn4, segs):
 
     def f(ctx):
         items = []
+        empty = False
         for i, (t, counts) in enumerate(segs):
             c = ctx.pick('c%d' % i, counts)
+            empty = empty or c == 0
             items += [ctx.byte('t%d' % i) if t is None else t, c] + sym(ctx, 's%d' % i, c * size)
+        if empty and not asn4:
+            # a zero-length segment is malformed (RFC 7606 7.2; that it is accepted is C08's finding F16).  A 4-octet session
+            # gives the stored octets back; a 2-octet session rebuilds the path from its segments and the empty one is not written
+            return Shape(items, [False], 'zero-length-segment', tag=':zero-length-segment')
         return Shape(items)
     return f
 
@@ -938,6 +981,36 @@ def sh_ls(code, lengths):
     return f
 
 
+def sh_ls_srv6(code, base, lengths):
+    """SRv6 End.X / LAN End.X (1106-1108): fixed part symbolic, then nothing, one SID-structure sub-TLV (1252), one unknown
+    sub-TLV, or a cut sub-TLV header: the sub-TLV type and length are concrete (the decoder slices on them)"""
+    def f(ctx):
+        which = ctx.pick('which', ('short',) + ('base', 'sid-structure', 'unknown-sub', 'cut-header'))
+        if which == 'short':
+            n = ctx.pick('n', lengths)
+            return Shape(be(code, 2) + be(n, 2) + sym(ctx, 'v', n))
+        # 1108: the last four octets of the fixed part are two concrete patterns (the decoder of the pinned tree reads them as a
+        # sub-TLV header, see repro_5: free octets there are 65536 slice bounds)
+        v = sym(ctx, 'v', base) if code != 1108 else sym(ctx, 'v', base - 4) + list(ctx.pick('tail', ((0, 0, 0, 0), (0x12, 0x34, 0, 0))))
+        if which == 'sid-structure':
+            v += be(1252, 2) + be(4, 2) + sym(ctx, 'st', 4)
+        elif which == 'unknown-sub':
+            v += be(4242, 2) + be(3, 2) + sym(ctx, 'u', 3)
+        elif which == 'cut-header':
+            v += sym(ctx, 'c', ctx.pick('k', (1, 3)))
+        return Shape(be(code, 2) + be(len(v), 2) + v)
+    return f
+
+
+def sh_ls_truncated(ctx):
+    """the TLV walker of the attribute itself: fewer octets than a header, and a header whose length overruns"""
+    n = ctx.pick('L', rng(0, 5))
+    if n < 4:
+        return Shape(sym(ctx, 'p', n))
+    code = ctx.pick('code', (1028, 4242))
+    return Shape(be(code, 2) + sym(ctx, 'len', 2) + sym(ctx, 'p', n - 4))
+
+
 def sh_ls_two(a, na, b, nb):
     return lambda ctx: Shape(be(a, 2) + be(na, 2) + sym(ctx, 'a', na) + be(b, 2) + be(nb, 2) + sym(ctx, 'b', nb))
 
@@ -963,7 +1036,15 @@ def sh_tunnel_sub(sub, th):
         if sub == 13:   # binding sid: flags(1) reserved(1) [label entry(4)]
             n = ctx.pick('n', (2, 6, 0, 1, 18))
             v = sym(ctx, 'v', n)
-            return wrap(hdr(n) + v, None, 'binding-sid')
+            # what BindingSIDSubTLV.pack_value writes: reserved octet 0; with a label: flag 0x10 set, the 12 bits after the
+            # 20-bit label are TC=0 S=1 TTL=0 (RFC 9830 2.4.2: those bits and the unassigned flags are ignored on receipt)
+            if n == 2:
+                canon = [v[1] == 0]
+            elif n == 6:
+                canon = [v[1] == 0, (v[0] // 16) % 2 == 1, v[4] % 16 == 1, v[5] == 0]
+            else:
+                canon = [False]
+            return wrap(hdr(n) + v, canon, 'binding-sid-ignored-bits-or-size')
         if sub == 20:   # srv6 binding sid: flags reserved sid(16) [behavior+structure(8)]
             n = ctx.pick('n', (18, 26, 0, 17))
             v = sym(ctx, 'v', n)
@@ -1057,9 +1138,10 @@ def sh_mp(code):
     return f
 
 
+LS_SRV6 = {1106: 22, 1107: 28, 1108: 26}   # fixed part of the SRv6 End.X / LAN End.X TLVs, sub-TLVs follow
 LS_LENGTH_HINTS = {   # payload sizes at which a BGP-LS attribute TLV accepts something, beyond its LEN and the generic 0..8
     1027: (1, 13), 1028: (4,), 1029: (16,), 1030: (4,), 1031: (16,), 1034: (12, 13), 1035: (1, 3), 1091: (32,), 1096: (4, 8, 12), 1099: (7, 8),
-    1100: (11, 12, 13, 14), 1106: (22, 30), 1107: (28, 36), 1108: (26, 34), 1252: (4,), 1038: (4,), 1162: (8, 16), 1250: (4,),
+    1100: (11, 12, 13, 14), 1252: (4,), 1038: (4,), 1162: (8, 16), 1250: (4,),
     1114: (4,), 1115: (8,), 1116: (4,), 1117: (4,), 1118: (4,), 1119: (4,), 1120: (4,), 258: (8,), 1152: (1,), 1153: (4, 8), 1154: (8, 16),
     1155: (4,), 1156: (4, 16), 1158: (7, 8), 1170: (1,), 1171: (4, 16), 1026: (1, 5), 1098: (1, 5), 1088: (4,), 1089: (4,), 1090: (4,), 1092: (4,),
     1093: (2,), 1094: (1,), 1095: (1, 2, 3), 1024: (1,),
@@ -1131,12 +1213,15 @@ def attr_plans(tier):
             add(c + '/tlvs', code, flag, sh_aigp, ('decoded', 'refused', 'canonical', 'non-canonical'), weight=30)
         elif code == 29:
             for tlv, k in sorted(LinkState.registered_lsids.items()):
+                if tlv in LS_SRV6:
+                    add('%s/tlv%d' % (c, tlv), code, flag, sh_ls_srv6(tlv, LS_SRV6[tlv], rng(0, 8) + ([LS_SRV6[tlv] - 1] if th else [])), ('decoded', 'refused'), kind='attr-29:%s' % k.__name__, weight=30)
+                    continue
                 lens = sorted(set(rng(0, 8) + [getattr(k, 'LEN', 0) or 0] + list(LS_LENGTH_HINTS.get(tlv, ())) + (rng(9, 16) if th else [])))
                 add('%s/tlv%d' % (c, tlv), code, flag, sh_ls(tlv, lens), ('decoded',), kind='attr-29:%s' % k.__name__, weight=30)
             add(c + '/unknown-tlv', code, flag, sh_ls(4242, rng(0, 5)), ('decoded',))
             add(c + '/two-tlvs', code, flag, sh_ls_two(1095, 3, 1092, 4), ('decoded',))
             add(c + '/repeated', code, flag, sh_ls_two(1092, 4, 1092, 4), ('refused',))
-            add(c + '/truncated', code, flag, sh_swept(rng(0, 5)), ('decoded', 'refused'))
+            add(c + '/truncated', code, flag, sh_ls_truncated, ('decoded', 'refused'))
         elif code == 32:
             add(c + '/chunks', code, flag, sh_large, ('decoded', 'canonical', 'non-canonical'), weight=40)
             add(c + '/swept', code, flag, sh_swept((0, 11, 12, 13, 23)), ('decoded', 'refused'))
